@@ -228,8 +228,23 @@ func c06Run(c *fw.C, caseID string) {
 			return
 		}
 		c.SetAdd("scripted_objects_created_in_abandoned_branch", script)
-	} else if !produce(A, wA, depthX, map[bool]int{true: 33, false: 1}[idx%4 == 3]) {
-		return
+	} else {
+		// a key that is created and deleted again inside ONE abandoned momentum (absent before, absent after): a QSR
+		// deposit and its withdrawal, sent together, are received by the contract in the same momentum
+		if depthX >= 2 {
+			ct, ab := types.SentinelContract, definition.ABISentinel
+			if idx%2 == 0 {
+				ct, ab = types.PillarContract, definition.ABIPillars
+			}
+			_, e1 := A.Send(g.Pillar7, ct, types.QsrTokenStandard, big.NewInt(3*g.Zexp), ab.PackMethodPanic(definition.DepositQsrMethodName))
+			_, e2 := A.Send(g.Pillar7, ct, types.ZnnTokenStandard, big.NewInt(0), ab.PackMethodPanic(definition.WithdrawQsrMethodName))
+			if e1 == nil && e2 == nil {
+				c.Count("deposit_and_withdrawal_sent_together_on_abandoned_branch", 1)
+			}
+		}
+		if !produce(A, wA, depthX, map[bool]int{true: 33, false: 1}[idx%4 == 3]) {
+			return
+		}
 	}
 	if !produce(B, wB, depthX+extraY, 0) {
 		return
@@ -288,7 +303,11 @@ func c06Run(c *fw.C, caseID string) {
 	}
 	warm(S)
 
-	// K: apply X then roll back directly
+	// K: apply X then roll back directly. Compared logically (present keys) and raw: every LevelDB key and value of the
+	// stopped node, so that a key written back as "present but empty", a left-over undo record or a tombstone shows
+	K.Stop()
+	rawPrefix, rawErr := simnet.RawDump(K.Dir)
+	K.Restart()
 	if err := K.SyncFrom(A, 64); err == nil {
 		m, _ := K.Chain.GetFrontierMomentumStore().GetMomentumByHeight(forkPoint)
 		ins := K.Chain.AcquireInsert("c06 rollback")
@@ -299,6 +318,14 @@ func c06Run(c *fw.C, caseID string) {
 			c.Violation("rollback-error", err.Error())
 		} else if diffs := simnet.DiffDumps(prefixDump, K.DumpFrontier(), 6); len(diffs) > 0 {
 			c.Violation("rollback-does-not-restore-every-key", map[string]interface{}{"depth": depthX, "diffs": diffs, "X_actions": wA.Accepted})
+		} else {
+			K.Stop()
+			if rawAfter, e2 := simnet.RawDump(K.Dir); rawErr == nil && e2 == nil {
+				c.Eval(len(rawAfter))
+				if diffs := simnet.DiffDumps(c06NoTombstones(rawPrefix), c06NoTombstones(rawAfter), 6); len(diffs) > 0 {
+					c.Violation("rollback-does-not-restore-every-raw-key", map[string]interface{}{"depth": depthX, "diffs": diffs, "X_actions": wA.Accepted})
+				}
+			}
 		}
 	}
 
@@ -395,6 +422,18 @@ func c06Run(c *fw.C, caseID string) {
 		}
 	}
 	c06Compare(c, S, R, forkPoint, "after-continuation", depthX)
+	// raw stores of the stopped nodes
+	S.Stop()
+	R.Stop()
+	if rs, e1 := simnet.RawDump(S.Dir); e1 == nil {
+		if rr, e2 := simnet.RawDump(R.Dir); e2 == nil {
+			c.Eval(len(rs))
+			if diffs := simnet.DiffDumps(c06NoTombstones(rr), c06NoTombstones(rs), 6); len(diffs) > 0 {
+				c.Violation("raw-store-differs after-continuation", map[string]interface{}{"diffs": diffs, "depth": depthX, "forkPoint": forkPoint})
+			}
+		}
+	}
+	S.Restart()
 
 	// switch back: A overtakes (if still within the 30-momentum window)
 	if back := int(B.Height()-forkPoint) + 1; back <= 30 && idx%2 == 0 {
@@ -422,6 +461,19 @@ func c06Run(c *fw.C, caseID string) {
 	if caseID == "fork:0" {
 		c.Sample(map[string]interface{}{"case": caseID, "prefix": prefixLen, "depthX": depthX, "lenY": depthX + extraY, "X_actions": wA.Accepted, "Y_actions": wB.Accepted})
 	}
+}
+
+// c06NoTombstones drops the deletion markers of the store's encoding (a key with an EMPTY raw value is a deleted key;
+// a rollback leaves such markers where the abandoned momentum had created keys — by design, and invisible to every
+// reader). What remains must be identical byte for byte: a key written back as present-but-empty has the raw value 00.
+func c06NoTombstones(raw map[string]string) map[string]string {
+	out := make(map[string]string, len(raw))
+	for k, v := range raw {
+		if v != "" {
+			out[k] = v
+		}
+	}
+	return out
 }
 
 // c06Consensus returns the answers of the consensus module for every slot/tick/epoch touched.
